@@ -994,12 +994,53 @@ class Mem:
 UNDEF_CTR = itertools.count()
 
 
+class Lazy:
+    """unevaluated ite(g, a, b) produced by a join: materialised only if the cell / register is read, so
+    dead temporaries and data overwritten before the next read never create expression nodes"""
+    __slots__ = ('g', 'a', 'b', 'bits', 'v', 'cell', 'done')
+
+    def __init__(self, g, a, b, bits, cell=False):
+        self.g, self.a, self.b, self.bits, self.cell = g, a, b, bits, cell
+        self.v = None
+        self.done = False
+
+    def force(self):
+        if not self.done:
+            a, b = self.a, self.b
+            if self.cell:
+                a, b = byte_of(a), byte_of(b)
+            else:
+                if isinstance(a, Lazy):
+                    a = a.force()
+                if isinstance(b, Lazy):
+                    b = b.force()
+            self.v = ite(self.g, a, b, self.bits)
+            self.done = True
+            self.a = self.b = self.g = None
+        return self.v
+
+
+LAZY_MERGE = not os.environ.get('LLSYM_EAGER_MERGE')
+
+
+def lazy_ite(g, a, b, bits):
+    if a is b or (is_c(a) and is_c(b) and a == b):
+        return a
+    if not LAZY_MERGE:
+        return ite(g, a, b, bits)
+    return Lazy(g, a, b, bits)
+
+
 def byte_of(cell):
     """materialise one byte value (int or BV8) from a stored byte entry"""
     if cell is None:
         return 0  # undef read as 0 (Rust never reads uninit in safe code; padding copies only)
+    if isinstance(cell, Lazy):
+        return cell.force()
     if isinstance(cell, tuple):
         _, nb, k, val = cell
+        if isinstance(val, Lazy):
+            val = val.force()
         if isinstance(val, Ptr):
             val = val.flat()
         return sx.extract(val, 8 * k + 7, 8 * k)
@@ -1019,7 +1060,8 @@ def mem_load(obj, off, nbytes):
                 ok = False
                 break
         if ok:
-            return c0[3]
+            v = c0[3]
+            return v.force() if isinstance(v, Lazy) else v
     parts = [byte_of(obj.b[off + k]) for k in range(nbytes)]
     if all(is_c(x) for x in parts):
         v = 0
@@ -1061,6 +1103,7 @@ class DeadPath(Exception):
 
 _FEAS = {}
 LOOP_STATS = {} if os.environ.get('LLSYM_MERGE_STATS') else None
+NODE_STATS = {} if os.environ.get('LLSYM_MERGE_STATS') else None
 MERGE_STATS = {} if os.environ.get('LLSYM_MERGE_STATS') else None
 # Back edges are followed while their guard is not *syntactically* false (loop counters of the model
 # containers are concrete or constant-leaf ite trees, so loops end without solver calls); the residual
@@ -1118,7 +1161,7 @@ def merge_cells(g, sb, mb):
                 yv = 0
                 for k in range(w):
                     yv |= (mb[i + k] or 0) << (8 * k)
-                val = ite(g, x[3], yv, w * 8)
+                val = lazy_ite(g, x[3], yv, w * 8)
                 for k in range(w):
                     out[i + k] = ('w', w, k, val)
                 i += w
@@ -1130,13 +1173,13 @@ def merge_cells(g, sb, mb):
                 xv = 0
                 for k in range(w):
                     xv |= (sb[i + k] or 0) << (8 * k)
-                val = ite(g, xv, y[3], w * 8)
+                val = lazy_ite(g, xv, y[3], w * 8)
                 for k in range(w):
                     out[i + k] = ('w', w, k, val)
                 i += w
                 continue
         if nb > 1:
-            val = ite(g, x[3], y[3], nb * 8)
+            val = lazy_ite(g, x[3], y[3], nb * 8)
             for k in range(nb):
                 out[i + k] = ('w', nb, k, val)
             i += nb
@@ -1145,6 +1188,8 @@ def merge_cells(g, sb, mb):
                 out[i] = y
             elif y is None:
                 out[i] = x
+            elif LAZY_MERGE:
+                out[i] = Lazy(g, x, y, 8, cell=True)
             else:
                 out[i] = ite(g, byte_of(x), byte_of(y), 8)
             i += 1
@@ -1283,9 +1328,13 @@ class Exec:
         k = v[0]
         if k == 'reg':
             try:
-                return st.env[v[1]]
+                r = st.env[v[1]]
             except KeyError:
                 raise Unsupported('undefined register %s' % v[1])
+            if isinstance(r, Lazy):
+                r = r.force()
+                st.env[v[1]] = r
+            return r
         if k == 'int':
             tt = rty(t)
             return v[1] & mask(tt.bits)
@@ -1539,7 +1588,7 @@ class Exec:
                     o = env[k]
                     if o is v or (is_c(o) and is_c(v) and o == v):
                         continue
-                    env[k] = ite(s.g, v, o, (rbits or {}).get(k))
+                    env[k] = lazy_ite(s.g, v, o, (rbits or {}).get(k))
                 else:
                     env[k] = v
             # memory
@@ -1783,7 +1832,12 @@ class Exec:
                 continue
             try:
                 self.cur_line = ins.line[:200] + ' @@ ' + demangle(f.name)[-80:]
+                if NODE_STATS is not None:
+                    n0_ = sx._CNT[0]
                 r = self.step(f, st, ins)
+                if NODE_STATS is not None and op != 'call':
+                    kk_ = (demangle(f.name)[-40:], op if op != 'call' else 'call', ins.line[:70])
+                    NODE_STATS[kk_] = NODE_STATS.get(kk_, 0) + sx._CNT[0] - n0_
             except DeadPath:
                 self.res.stats['deadpaths'] = self.res.stats.get('deadpaths', 0) + 1
                 return []
@@ -2330,9 +2384,8 @@ def analyze(path, fname, nbytes=96, unwind=8, timeout_s=600, covers=(), extra_qu
             return False
         return g_and(retg, _gn(sx.cmp_('eq', retv, k, 8)))
 
-    def check(name, cond, expect):
+    def solve(name, cond, expect):
         q = {'name': name, 'expect': expect}
-        out['queries'].append(q)
         if cond is False:
             q.update(verdict='unsat', solve_s=0.0, trivial=True)
             return q
@@ -2359,19 +2412,59 @@ def analyze(path, fname, nbytes=96, unwind=8, timeout_s=600, covers=(), extra_qu
             q.update(verdict='unknown', reason=s.reason_unknown())
         return q
 
-    check('violation', retis(0), 'unsat')
-    check('panic', panic, 'unsat')
-    check('bound-exceeded', bound, 'unsat')
-    check('unwind-exceeded', unw, 'unsat')
+    todo = [('violation', retis(0), 'unsat'), ('panic', panic, 'unsat'), ('bound-exceeded', bound, 'unsat'),
+            ('unwind-exceeded', unw, 'unsat')]
     ubg = False
     for g in ex.res.ub:
         ubg = g_or(ubg, g)
-    check('invalid-deref', ubg, 'unsat')
-    check('witness', retis(1), 'sat')
+    todo.append(('invalid-deref', ubg, 'unsat'))
+    todo.append(('witness', retis(1), 'sat'))
     for c in covers:
-        check('cover=%d' % c, retis(c), 'sat')
+        todo.append(('cover=%d' % c, retis(c), 'sat'))
     for name, k, expect in (extra_queries or []):
-        check(name, retis(k), expect)
+        todo.append((name, retis(k), expect))
+    qjobs = int(os.environ.get('LLSYM_QJOBS', '4'))
+    hard = [t_ for t_ in todo if t_[1] is not False]
+    if qjobs <= 1 or len(hard) <= 1 or smt_dump:
+        out['queries'] = [solve(*t_) for t_ in todo]
+    else:
+        # the queries are independent: discharge them in forked children (the expression DAG is inherited,
+        # every child builds its own z3 terms), at most `qjobs` at a time
+        import json as _json
+        results = {}
+        pending = list(enumerate(todo))
+        running = {}
+        while pending or running:
+            while pending and len(running) < qjobs:
+                idx, t_ = pending.pop(0)
+                if t_[1] is False:
+                    results[idx] = solve(*t_)
+                    continue
+                r_fd, w_fd = os.pipe()
+                pid = os.fork()
+                if pid == 0:
+                    os.close(r_fd)
+                    try:
+                        res = solve(*t_)
+                    except BaseException as e:  # noqa
+                        res = {'name': t_[0], 'expect': t_[2], 'verdict': 'unknown', 'reason': 'solver process failed: %s' % str(e)[:200], 'solve_s': 0.0}
+                    with os.fdopen(w_fd, 'w') as f:
+                        f.write(_json.dumps(res))
+                    os._exit(0)
+                os.close(w_fd)
+                running[pid] = (idx, r_fd, t_)
+            if running:
+                pid, status = os.wait()
+                if pid in running:
+                    idx, r_fd, t_ = running.pop(pid)
+                    with os.fdopen(r_fd) as f:
+                        data = f.read()
+                    try:
+                        results[idx] = _json.loads(data)
+                    except ValueError:
+                        results[idx] = {'name': t_[0], 'expect': t_[2], 'verdict': 'unknown', 'solve_s': 0.0,
+                                        'reason': 'solver process died (status %d): out of memory?' % status}
+        out['queries'] = [results[i] for i in range(len(todo))]
     out['total_s'] = round(time.time() - t0, 3)
     return out
 
